@@ -6,7 +6,10 @@ for d in sorted(glob.glob('/verif/seeded/*/')):
     name = os.path.basename(d.rstrip('/'))
     m = json.load(open(d + 'meta.json'))
     c = m.get('confirmed', {})
-    summ = (m.get('summary') or m.get('change') or '').replace('|', '/').replace('\n', ' ')
+    summ = m.get('summary') or m.get('change') or ''
+    if isinstance(summ, dict):
+        summ = '; '.join(f'{k}: {v}' for k, v in summ.items())
+    summ = str(summ).replace('|', '/').replace('\n', ' ')
     rows.append((name, summ[:150], ','.join(c.get('detected_by', [])) or '(none: no alarm expected)', (c.get('note') or '').replace('|', '/')))
 print('| seed | change | caught by | note |\n|---|---|---|---|')
 for r in rows:
